@@ -15,7 +15,7 @@ PROP = "C10"
 RUNNER = VERIF / "harness" / "fstrace.py"
 VARIANT = "fixed"          # the first round of repairs (Model/Build.v); current_variant() adds what the tree under test has on top
 
-COQ_HEADER = ("From Coq Require Import String List.\nFrom JMCV Require Import Model.FS Model.Build Run.C10.\n"
+COQ_HEADER = ("From Coq Require Import String List.\nFrom JMCV Require Import Model.FS Model.Build Model.BuildPath Run.C10.\n"
               "Import ListNotations.\nOpen Scope string_scope.\n")
 
 DEFAULT_CERT = [("LOAD", "__load__"), ("TICK", "__tick__"), ("PRIVATE", "__private__"), ("VAR", "__variable__"),
@@ -23,7 +23,14 @@ DEFAULT_CERT = [("LOAD", "__load__"), ("TICK", "__tick__"), ("PRIVATE", "__priva
 
 TRUSTED = [t for t in COMMON_TRUSTED if not t.startswith("MC/")] + [
     "Model/FS.v: hand-written model of a POSIX directory tree and of mkdir/open-truncate/write/unlink/rmdir "
-    "(strict: an operation the OS would refuse has no result); symlinks, permissions, hard links are outside the model",
+    "(strict: an operation the OS would refuse has no result); symbolic links INSIDE the output directory, permissions, hard links "
+    "are outside the model",
+    "Model/BuildPath.v: hand-written model of Path.resolve() / os.path.realpath(strict=False) (resolve: \"\" and \".\" dropped, "
+    "\"..\" = parent of what is resolved so far, a symbolic link continues at the location it denotes) and of the folder a `#static` "
+    "argument denotes (static_of); the table of symbolic links ABOVE the output directory maps each link the harness created to "
+    "os.path.realpath of the link itself (one kernel answer per link; the composition along the spelled path is the model's); the "
+    "model is given the output directory and the `#static` arguments as written (configuration, header text parsed by the harness "
+    "with a regular expression: `#static \"<arg>\"` lines without escapes), never Header.statics of the code under test",
     "Model/Build.v: hand-written port of compile_jmc/read_cert/rmtree/build (compiling.py) as a generator of primitive "
     "mutations; the compiler front end is abstracted to its outcome (failing stage, or the compiled files), which the "
     "harness captures from the same real run (DataPack.build wrapper in fstrace.py)",
@@ -123,17 +130,110 @@ def current_variant() -> str:
 
 # ----------------------------------------------------------------------------------- Coq terms
 
+class Share:
+    """(round 4) Parsing string literals is what coqc spends its time on with these case files (a path or a file content is
+    repeated in every snapshot of every case): every path, longer content and whole snapshot is given a name once and the case
+    terms refer to it; a generated file defines the names it uses (with_defs).  The terms are unchanged up to delta."""
+
+    def __init__(self):
+        self.names: dict = {}
+        self.defs: list = []
+
+    def name(self, kind: str, typ: str, text: str) -> str:
+        key = (kind, text)
+        if key not in self.names:
+            self.names[key] = f"zz{kind}{len(self.defs)}q"
+            self.defs.append((self.names[key], typ, text))
+        return self.names[key]
+
+    NAME = re.compile(r"zz[A-Z](\d+)q")
+
+    def with_defs(self, body: str) -> str:
+        """Coq definitions of every shared name `body` uses (transitively), in order of creation (inner terms first)"""
+        need, todo = set(), [int(i) for i in self.NAME.findall(body)]
+        while todo:
+            i = todo.pop()
+            if i in need or i >= len(self.defs):
+                continue
+            need.add(i)
+            todo += [int(j) for j in self.NAME.findall(self.defs[i][2])]
+        return "".join(f"Definition {self.defs[i][0]} : {self.defs[i][1]} := {self.defs[i][2]}.\n" for i in sorted(need)) + body
+
+
+SHARE = Share()
+
+
 def cpath(rel: str) -> str:
     comps = ["."] if rel == "." else ["."] + rel.split("/")
-    return coq_list(coq_str(c) for c in comps)
+    return SHARE.name("P", "path", coq_list(coq_str(c) for c in comps))
 
 
-def abs_to_model(p: str, root: str) -> list[str]:
-    if p == root:
-        return ["."]
-    if p.startswith(root + "/"):
-        return ["."] + p[len(root) + 1:].split("/")
-    return ["<outside>"] + [c for c in p.split("/") if c]
+# ---- (round 4) path spellings: the model is given the `#static` arguments and the output directory AS WRITTEN (header text,
+# configuration) and resolves them itself (Model/BuildPath.v resolve / static_of) - never the paths the code under test
+# computed from them (Header.statics), which is the very computation that can be wrong.
+STATIC_DIRECTIVE = re.compile(r'^[ \t]*#static[ \t]+"([^"\n]*)"[ \t]*$', re.M)
+
+
+def static_args(header_text: str | None) -> list[str]:
+    """arguments of the `#static "<arg>"` lines of a header text, in order"""
+    return [m.group(1) for m in STATIC_DIRECTIVE.finditer(header_text or "")]
+
+
+def abs_segments(p: str) -> list[str]:
+    """absolute path text -> its segments below "/" as written ("", ".", ".." kept)"""
+    if not p.startswith("/"):
+        raise Unmodelled(f"not an absolute path: {p!r}")
+    return p.split("/")[1:]
+
+
+def coq_segs(segs) -> str:
+    return coq_list(coq_str(c) for c in segs)
+
+
+def env_term(f: dict) -> str:
+    links = coq_list(f"({coq_segs(abs_segments(a))}, {coq_segs(abs_segments(b))})" for a, b in f.get("links") or [])
+    return f"(mkEnv {links} {coq_segs(abs_segments(f.get('out_given') or f['root']))})"
+
+
+def sarg_term(arg: str) -> str:
+    if arg.startswith("/"):
+        return f"(mkSArg true {coq_segs(arg.split('/')[1:])})"
+    return f"(mkSArg false {coq_segs(arg.split('/'))})"
+
+
+def py_resolve(links: dict, segs: list[str]) -> list[str]:
+    """Model/BuildPath.v resolve (from "/"), for the Python-side bookkeeping only"""
+    acc: list[str] = []
+    for x in segs:
+        if x in ("", "."):
+            continue
+        if x == "..":
+            acc = acc[:-1]
+            continue
+        t = links.get(tuple(acc + [x]))
+        acc = list(t) if t is not None else acc + [x]
+    return acc
+
+
+def spelled_statics(f: dict, ns: str) -> list[str]:
+    """the #static folders of the header as written, as paths relative to the output directory (those inside it)"""
+    links = {tuple(abs_segments(a)): abs_segments(b) for a, b in f.get("links") or []}
+    out_given = abs_segments(f.get("out_given") or f["root"])
+    oc = py_resolve(links, out_given)
+    res = []
+    for arg in static_args(f.get("header_text")):
+        p = py_resolve(links, arg.split("/")[1:] if arg.startswith("/") else out_given + ["data", ns] + arg.split("/"))
+        if p[:len(oc)] == oc:
+            res.append("/".join(p[len(oc):]) or ".")
+    return res
+
+
+def hdr_term(f: dict, cfg: str, overrides: list[str], copy: str, ns: str) -> str:
+    """Coq term of the header of a real run: the statics from the spellings (Model/BuildPath.v hdr_of)"""
+    sargs = coq_list(sarg_term(a) for a in static_args(f.get("header_text")))
+    cfg = SHARE.name("G", "cfg", cfg)
+    return (f"(hdr_of {env_term(f)} {cfg} (mkRHdr {sargs} {coq_list(coq_str(o) for o in overrides)} {copy} "
+            f"{'true' if f.get('nometa') else 'false'}))")
 
 
 def tag_rel(ff: str) -> set[str]:
@@ -164,8 +264,10 @@ def ccontent(t) -> str:
     if t[0] == "raw":
         if any(ord(ch) > 126 or (ord(ch) < 32 and ch not in "\n\t") for ch in t[1]):
             raise Unmodelled("non-ASCII file content")
-        return f"(Raw {coq_str(t[1])})"
-    return f"(Tag {coq_list(coq_str(v) for v in t[1])})"
+        text = f"(Raw {coq_str(t[1])})"
+    else:
+        text = f"(Tag {coq_list(coq_str(v) for v in t[1])})"
+    return SHARE.name("C", "content", text) if len(text) > 16 else text
 
 
 def tree_term(snap: list, ff: str, dest_prefix: str = "") -> str:
@@ -187,7 +289,7 @@ def tree_term(snap: list, ff: str, dest_prefix: str = "") -> str:
         if n[0] == "f":
             return f"TFile {ccontent(n[1])}"
         return "TDir " + coq_list(f"({coq_str(k)}, {term(v)})" for k, v in n[1].items())
-    return term(("d", root))
+    return SHARE.name("T", "tree", term(("d", root)))
 
 
 def fs_term(snap: list, ff: str) -> str:
@@ -201,7 +303,7 @@ def flat_term(snap: list, ff: str) -> str:
     for rel, text in snap:
         n = "NDir" if text is None else f"NFile {ccontent(typed(rel, text, ff))}"
         items.append(f"({cpath(rel)}, {n})")
-    return coq_list(items)
+    return SHARE.name("F", "list (path * node)", coq_list(items))
 
 
 def op_term(ev, ff: str) -> str:
@@ -371,8 +473,6 @@ def case_term(job: dict, bi: int, b: dict, variant: str | None = None, ov_order:
     if "load_name" in f and (f["load_name"], f["tick_name"]) != (nm["LOAD"], nm["TICK"]):
         raise Unmodelled("load/tick names differ from jmc.txt")
     cfg = f"(mkCfg {coq_str(ns)} {coq_str(ff)} {coq_str(cert_text)} {coq_str(nm['LOAD'])} {coq_str(nm['TICK'])})"
-    root = f["root"]
-    statics = [coq_list(coq_str(c) for c in abs_to_model(s, root)) for s in f.get("statics", [])]
     overrides = ov_order if ov_order is not None else override_order(f.get("overrides", []), b["trace"])
     if f.get("copy"):
         snap = f["copy_tree"]
@@ -393,7 +493,7 @@ def case_term(job: dict, bi: int, b: dict, variant: str | None = None, ov_order:
         copy = "None"
     if not detect_variant().get("ns_checked") and not all(plain_name(o) for o in overrides):
         raise Unmodelled(f"override namespaces {overrides!r}")
-    hdr = f"(mkHdr {coq_list(statics)} {coq_list(coq_str(o) for o in overrides)} {copy} {'true' if f.get('nometa') else 'false'})"
+    hdr = hdr_term(f, cfg, overrides, copy, ns)
     res = real_result(b)
     stage = b["stage"]
     if stage == "header":
@@ -420,9 +520,12 @@ def case_term(job: dict, bi: int, b: dict, variant: str | None = None, ov_order:
     if res == "?":
         raise Unmodelled(f"exception {b['exc']} at stage {stage}")
     trace = coq_list(op_term(ev, ff) for ev in b["trace"])
+    cfg, hdr = SHARE.name("G", "cfg", cfg), SHARE.name("H", "hdr", hdr)
+    if out.startswith("(Success"):
+        out = SHARE.name("O", "outcome", out)
     term = (f"(mkCase {variant} {cfg} {hdr} {out} {fault} {fs_term(b['before'], ff)} {crash} {trace} "
             f"{'RDone' if res == 'CRASH' else res} {flat_term(b['after'], ff)})")
-    return term, dict(result=res, stage=stage, n_mut=b["n_mut"], overrides=overrides, statics=f.get("statics", []),
+    return term, dict(result=res, stage=stage, n_mut=b["n_mut"], overrides=overrides, statics=spelled_statics(f, ns),
                       copy=bool(f.get("copy")), ff=ff)
 
 
@@ -430,7 +533,7 @@ def eval_codes(prop: str, terms: list[str], per_file: int = 25, prefix: str = "c
     files = []
     for fi, start in enumerate(range(0, len(terms), per_file)):
         chunk = terms[start:start + per_file]
-        body = COQ_HEADER + "Definition cases : list case := [\n" + ";\n".join(chunk) + "\n].\nEval vm_compute in codes cases.\n"
+        body = COQ_HEADER + SHARE.with_defs("Definition cases : list case := [\n" + ";\n".join(chunk) + "\n].\nEval vm_compute in codes cases.\n")
         files.append((f"{prefix}_{fi}.v", body))
     outs = run_coq_files(prop, files, timeout=600)
     codes: list = []
@@ -476,7 +579,54 @@ ESCAPING_NAMESPACES = ['".."', '""', '"."', '"a/../.."', '"../.."', '"../../outs
                        '"Foo"']
 
 
-def gen_project(rng, tree_has: dict) -> dict:
+# ---- (round 4) how JMC is GIVEN its paths (fstrace job field "paths") and how a `#static` argument may be spelled.
+# <tmp> holds proj/ (sources), out/ (the output directory), outside/.  Every entry denotes the same two locations.
+PATH_ENVS = [
+    dict(name="config-dotdot", cwd="proj", output="../out", target="main.jmc", mode="config"),          # jmc_config.json next to main.jmc
+    dict(name="config-slash-dot", cwd="proj", output=".././out/", target="./main.jmc", mode="config"),
+    dict(name="raw-relative", cwd=".", output="out", target="proj/main.jmc", mode="raw"),               # relative Paths from an API caller
+    dict(name="raw-relative-dotdot", cwd="proj", output="../out", target="main.jmc", mode="raw"),
+    dict(name="absolute-cwd-elsewhere", cwd="elsewhere/deep", output="{TMP}/out", target="{TMP}/proj/main.jmc", mode="config"),
+    dict(name="relative-cwd-elsewhere", cwd="elsewhere/deep", output="../../out", target="../../proj/main.jmc", mode="raw"),
+    dict(name="linked-parent", links=[["lnk", "."]], cwd="proj", output="{TMP}/lnk/out", target="main.jmc", mode="config"),
+    dict(name="linked-parent-relative", links=[["lnk", "."]], cwd="proj", output="../lnk/lnk/out", target="../lnk/proj/main.jmc", mode="raw"),
+    dict(name="linked-output", links=[["outlnk", "out"]], cwd="proj", output="../outlnk", target="main.jmc", mode="config", needs_out=True),
+    # `..` after a symbolic link is the parent of the link's TARGET: <tmp>/a/lnk2 -> <tmp>/proj, so a/lnk2/../out = <tmp>/out
+    dict(name="dotdot-after-link", links=[["a/lnk2", "{TMP}/proj"]], cwd="proj", output="{TMP}/a/lnk2/../out", target="{TMP}/a/lnk2/main.jmc", mode="config"),
+    dict(name="linked-chain", links=[["l1", "l2"], ["l2", "{TMP}"]], cwd=".", output="l1/out/", target="l1/proj/main.jmc", mode="config"),
+]
+
+
+def path_env(env: dict | None) -> dict | None:
+    return None if env is None else {k: v for k, v in env.items() if k not in ("name", "needs_out")}
+
+
+def static_spellings(st: str, env: dict | None = None) -> list[str]:
+    """spellings of the `#static` argument that denote the same folder as the plain spelling `st` (relative to data/<ns>)"""
+    import posixpath
+    out = [st, "./" + st, st + "/", "zz/../" + st, "function/../" + st, st + "/.", st + "/nothere/..", ".//" + st]
+    if st.startswith("../"):
+        out += ["../../data/" + st[3:], "../ns/" + st, "../" + st[3:].split("/")[0] + "/../" + st[3:]]
+    elif st == ".":
+        out += ["", "../ns", "nothere/..", "../../data/ns/"]
+    else:
+        out += ["../ns/" + st, "../../data/ns/" + st]
+    canon = posixpath.normpath("data/ns/" + st)
+    out.append("{TMP}/out/" + canon)                                   # an absolute argument replaces the namespace folder
+    out.append("{TMP}/proj/../out/" + canon)
+    for rel, _ in (env or {}).get("links") or []:
+        if rel == "lnk":
+            out.append("{TMP}/lnk/out/" + canon)
+        if rel == "outlnk":
+            out.append("{TMP}/outlnk/" + canon)
+    return out
+
+
+def spell(rng, st: str, env: dict | None = None, p_plain: float = 0.45) -> str:
+    return st if rng.random() < p_plain else rng.choice(static_spellings(st, env))
+
+
+def gen_project(rng, tree_has: dict, env: dict | None = None) -> dict:
     """One compile attempt: {"src", "header", "kind"}; tree_has says which static folders can exist."""
     r = rng.random()
     overrides = [o for o in ("foo", "bar", "minecraft", "ns") if rng.random() < (0.3 if o in ("foo", "bar") else 0.06)]
@@ -488,8 +638,8 @@ def gen_project(rng, tree_has: dict) -> dict:
         escape = rng.choice(ESCAPING_NAMESPACES)
         hl.append(f"#{'link' if rng.random() < 0.3 else 'override'} {escape}")
     for st, ok in tree_has.items():
-        if ok and not st.startswith("__") and rng.random() < (0.25 if st in ROOT_STATICS else 0.45):
-            hl.append(f'#static "{st}"')
+        if ok is True and not st.startswith("__") and rng.random() < (0.25 if st in ROOT_STATICS else 0.45):
+            hl.append(f'#static "{spell(rng, st, env)}"')
     if tree_has.get("__copy__") and rng.random() < 0.35:
         hl.append('#copy "cp"')
     if rng.random() < 0.12:
@@ -628,7 +778,13 @@ def gen_init(rng) -> tuple[dict, dict]:
         rng.shuffle(copy_src)
         has["__copy__"] = True
     job = dict(ns="ns", pack_format=rng.choice(["48", "48", "48", "26", "61"]), desc="d", out_exists=out_exists or bool(init),
-               init=init, copy_src=copy_src, out_dotdot=rng.random() < 0.25)
+               init=init, copy_src=copy_src, out_dotdot=rng.random() < 0.2)
+    if rng.random() < 0.4:
+        env = rng.choice(PATH_ENVS)
+        if job["out_exists"] or not env.get("needs_out"):
+            job["out_dotdot"] = False
+            job["paths"] = path_env(env)
+            has["__env__"] = env
     return job, has
 
 
@@ -680,7 +836,7 @@ def gen_history(rng, n_builds=None) -> dict:
     builds = []
     state: dict = {}
     for i in range(n):
-        p = gen_project(rng, has)
+        p = gen_project(rng, has, has.get("__env__"))
         if p["kind"] == "valid" and rng.random() < 0.25:
             statics = p["header"] is not None and "#static" in p["header"]
             p["oserror_path"] = rng.choice(FAULT_PATHS if statics else FAULT_PATHS + FAULT_DIRS)
@@ -765,6 +921,43 @@ def fixed_histories() -> list[dict]:
                      dict(src=B + "\n" + fn("minecraft.mcf"), header='#override minecraft\n#static "keep"')]),
     ]
     hs += triage_histories()
+    hs += spelling_histories()
+    return hs
+
+
+def spelling_histories() -> list[dict]:
+    """(round 4) every way of handing JMC its paths x spellings of the `#static` argument, on a built tree with hand-made
+    folders in the namespace folder, in data/minecraft and in an override namespace; build, user edits, rebuild, rebuild."""
+    cert = "\n".join(f"{k}={v}" for k, v in DEFAULT_CERT)
+    A = "\n".join([fn("__tick__", 'say "t";'), fn("f"), 'new advancement(x.y) {"a":1}'])
+    B = fn("g")
+    tree = [["data/ns/jmc.txt", cert], ["data/ns/function/old.mcfunction", "o"], ["data/ns/keep/a.txt", "precious"],
+            ["data/ns/keep/sub/b.txt", "more"], ["data/ns/function/lib/hand.mcfunction", "say lib"],
+            ["data/minecraft/loot_table/x.json", "{}"], ["data/minecraft/keep/m.txt", "m"],
+            ["data/minecraft/tags/function/load.json", canon(["other:init"])],
+            ["data/foo/keepfoo/z.txt", "z"], ["data/foo/function/old.mcfunction", "o"], ["readme.txt", "hi"]]
+    plain = ["keep", "../minecraft/loot_table", "../minecraft/keep", "../foo/keepfoo", "function/lib", "keep/sub", "../minecraft", "../foo", "."]
+    hs = []
+    for ei, env in enumerate([None] + PATH_ENVS):
+        def hdr(k, sts, extra=()):
+            lines = [f'#static "{static_spellings(st, env)[(ei + k + 3 * j) % len(static_spellings(st, env))]}"' for j, st in enumerate(sts)]
+            return "\n".join(list(extra) + lines)
+        if ei % 2 == 0:      # the function tags themselves shielded: their foreign entries must survive every rebuild
+            hdr0 = hdr
+            hdr = lambda k, sts, extra=(): hdr0(k, list(sts) + ["../minecraft/tags"], extra)  # noqa
+        job = dict(ns="ns", pack_format="48", desc="d", out_exists=True, copy_src=None, init=list(tree), paths=path_env(env),
+                   builds=[       # (a folder that is not declared in a build is gone afterwards: every build names them all)
+                       dict(src=A, header=hdr(0, ["keep", "../minecraft/loot_table", "../minecraft/keep", "function/lib"])),
+                       dict(src=B + "\n" + fn("foo.h"),
+                            header=hdr(1, ["../foo/keepfoo", "keep", "../minecraft/keep", "keep/sub", "function/lib", "../minecraft/loot_table"], ["#override foo"]),
+                            touch=[["data/ns/keep/new.txt", "new"], ["data/minecraft/loot_table/y.json", "{}"]]),
+                       dict(src=A, header=hdr(2, ["function/lib", "../minecraft/loot_table", "keep", "../minecraft/keep"]), touch=[["data/ns/keep/sub/c.txt", "c"]]),
+                       dict(src=B, header=hdr(3, [plain[6 + ei % 3], "keep", "../minecraft/keep", "function/lib", "../minecraft/loot_table"])),
+                   ])
+        hs.append(job)
+    # a spelling that LOOKS like the static folder but is not: `keep/..` is the namespace folder, `../keep` is data/keep
+    hs.append(dict(ns="ns", pack_format="48", desc="d", out_exists=True, copy_src=None, init=list(tree) + [["data/keep/k.txt", "k"]],
+                   builds=[dict(src=B, header='#static "../keep"\n#static "function/lib/../lib"'), dict(src=A, header='#static "keep/sub/../../function/lib"')]))
     return hs
 
 
@@ -820,7 +1013,8 @@ def triage_histories() -> list[dict]:
 BITS = {1: "trace differs from the model's plan", 2: "tree after the run differs from exec(plan, tree before)",
         4: "result (refusal / error kind / done) differs from the model's", 8: "a path outside the territory changed",
         16: "a #static folder changed", 32: "a refused or failed compile modified the tree",
-        64: "a namespace folder without jmc.txt was touched"}
+        64: "a namespace folder without jmc.txt was touched",
+        128: "a function tag inside a #static folder lost a foreign entry"}
 
 
 def describe_change(b: dict) -> list:
@@ -908,7 +1102,7 @@ def main(tier: str) -> int:
     hist, n_ok, unmodelled, reported = {}, 0, 0, set()
     known = {f["id"]: f for f in known_for(PROP)}
     # records whose run violates the property itself first: their history is the concrete failing input
-    recs.sort(key=lambda r: 0 if (r.get("code") or 0) & (8 | 16 | 32 | 64) else 1)
+    recs.sort(key=lambda r: 0 if (r.get("code") or 0) & (8 | 16 | 32 | 64 | 128) else 1)
     escapes = dict(inputs=0, harmless=0, pending=0)
     for rec in recs:
         if rec.get("error"):
@@ -961,7 +1155,7 @@ def main(tier: str) -> int:
         if sig in reported:
             continue
         reported.add(sig)
-        prop_bits = code & (8 | 16 | 32 | 64)
+        prop_bits = code & (8 | 16 | 32 | 64 | 128)
         rec["prop"] = PROP
         # (round 2) a run that ENDED IN AN ERROR after modifying the tree, where the model of the accepted behaviour predicts
         # another result (e.g. success): the recorded history is a concrete failing input ("failed compiles change nothing"),
